@@ -919,3 +919,33 @@ package stats
 //@   ensures [normal-enough] confidence < 1 && n > quantileCIApproxThreshold ==> result.Confidence >= confidence
 //@   ensures [conf-range]    confidence < 1 && n > quantileCIApproxThreshold ==> result.Confidence <= 1
 //@   assigns nothing
+
+//@ func QuantileCIResult.SampleCI
+//@   model xreal
+//@   requires isnil(s.Weights) && len(s.Xs) == ci.N && wfSample(s) && 0 <= ci.LoOrder && ci.LoOrder < ci.HiOrder && ci.HiOrder <= ci.N + 1
+//@   ensures [lo-inf] ci.LoOrder < 1 ==> lo == ninf
+//@   ensures [hi-inf] ci.HiOrder - 1 >= len(s.Xs) ==> hi == inf
+//@   ensures [lo-sorted] ci.LoOrder >= 1 && s.Sorted ==> lo == s.Xs[ci.LoOrder - 1]
+//@   ensures [hi-sorted] ci.HiOrder - 1 < len(s.Xs) && s.Sorted ==> hi == s.Xs[ci.HiOrder - 1]
+//@   check @ret1 [lo-order] ci.LoOrder >= 1 ==> lo == s.Xs[ci.LoOrder - 1]
+//@   check @ret1 [hi-order] ci.HiOrder - 1 < len(s.Xs) ==> hi == s.Xs[ci.HiOrder - 1]
+//@   check @ret1 [sorted]   sortedF(s.Xs) && len(s.Xs) == ci.N
+//@   assigns nothing
+
+// Restatements for SampleCI (model xreal)
+//@ assume func Sample.Quantile@xreal
+//@   deterministic
+//@   model xreal
+//@   trusted restatement: only determinism and the frame are used (the contract is proved in model real)
+//@   ensures true
+//@   assigns nothing
+//@ assume func Sample.Copy@xreal
+//@   model xreal
+//@   trusted restatement of the contract proved in model real
+//@   ensures result != nil && fresh(result) && fresh(result.Xs) && (!isnil(s.Weights) ==> fresh(result.Weights)) && same(result.Xs, s.Xs) && (isnil(s.Weights) ==> isnil(result.Weights)) && result.Sorted == s.Sorted
+//@   assigns nothing
+//@ assume func Sample.Sort@xreal
+//@   model xreal
+//@   trusted restatement of the contract proved in model real
+//@   ensures s.Sorted && sortedF(s.Xs) && result == s && len(s.Xs) == old(len(s.Xs)) && region(s.Xs) == old(region(s.Xs)) && region(s.Weights) == old(region(s.Weights)) && offset(s.Xs) == old(offset(s.Xs)) && (forall k in 0..len(s.Xs) :: isfinite(s.Xs[k]))
+//@   assigns s.Sorted, s.Xs[*], s.Weights[*]
